@@ -10,7 +10,27 @@ _ODD = [None, "", 0, (), False and 0 or 1.5, frozenset(), b"", ("t",), -1, "x", 
 def _label(kind, i):
     if kind == "odd":        # "any node labels": falsy ones, None, bytes, frozensets - pairwise distinct and hashable
         return _ODD[i] if i < len(_ODD) else ("odd", i)
-    return {"str": "n%d" % i, "tuple": (i, 0)}.get(kind, i)
+    return {"str": "n%d" % i, "tuple": (i, 0), "big": 1000 + i}.get(kind, i)
+
+
+def _fresh(lb):
+    """an equal but (where the type allows) not identical object: callers build the labels of arcs, of dictionary keys and of the
+    source / sink arguments separately (parsed from files, computed), so code that compares labels with `is` must not pass"""
+    if isinstance(lb, tuple) and lb:
+        return tuple([_fresh(x) for x in lb])
+    if isinstance(lb, str) and len(lb) >= 2:
+        return "".join(list(lb))
+    if isinstance(lb, bool) or lb is None:
+        return lb
+    if isinstance(lb, int) and abs(lb) > 256:
+        return int(str(lb))
+    if isinstance(lb, float):
+        return float(repr(lb))
+    if isinstance(lb, frozenset) and lb:
+        return frozenset(set(lb))
+    if isinstance(lb, bytes) and len(lb) >= 2:
+        return bytes(bytearray(lb))
+    return lb
 
 
 def _isint(x):
@@ -33,12 +53,12 @@ def run_maxflow(case):
     ids = {lb: i for i, lb in enumerate(labs)}
     g = {}
     for u, v, c, _ in case["arcs"]:
-        g.setdefault(labs[u], []).append((labs[v], c) if case.get("two_tuple", True) else (labs[v], c, 0))
+        g.setdefault(_fresh(labs[u]), []).append((_fresh(labs[v]), c) if case.get("two_tuple", True) else (_fresh(labs[v]), c, 0))
     if case.get("all_keys"):
         for lb in labs:
-            g.setdefault(lb, [])
+            g.setdefault(_fresh(lb), [])
     try:
-        r = max_flow(g, labs[case["s"]], labs[case["t"]])
+        r = max_flow(g, _fresh(labs[case["s"]]), _fresh(labs[case["t"]]))
         if not _isint(r.objective):
             ev = {"e": "raise", "fn": "max_flow", "what": "non_integral_value"}
         else:
@@ -48,11 +68,16 @@ def run_maxflow(case):
     return {"kind": "maxflow", "n": n, "arcs": case["arcs"], "s": case["s"], "t": case["t"], "events": [ev], "input": case}
 
 
-def _cost_event(fn, r, ids):
+def _cost_event(fn, r, ids, off=0):
+    """off: the exact integer every feasible flow's cost was shifted by (families with huge integer costs); the trace carries the
+    unshifted small costs, so the subtraction has to be exact - a float objective at that magnitude shows up as a wrong cost"""
     ev = {"e": "ret", "fn": fn, "status": r.status.name, "flows": [], "cost": 0, "exact": True}
     if r.status.name in ("OPTIMAL", "FEASIBLE"):
         ev["flows"] = _flows(r.solution, ids)
-        c = float(r.objective)
+        obj = r.objective
+        if off and isinstance(obj, float) and obj == int(obj):
+            obj = int(obj)
+        c = float(obj - off)
         ev["cost"] = int(round(c))
         ev["exact"] = abs(c - round(c)) < 1e-9
     return ev
@@ -66,12 +91,16 @@ def run_mincost(case):
     ids = {lb: i for i, lb in enumerate(labs)}
     events = []
     supplies = case.get("supplies")
+    K = case.get("shift", 0)           # every arc cost is raised by K; all routes have case["layers"] arcs, so costs shift by a constant
+    units = case["demand"] if supplies is None else sum(x for x in supplies if x > 0)
+    off = K * case.get("layers", 0) * units
+    real_arcs = [(u, v, c, w + K) for u, v, c, w in case["arcs"]]
     if supplies is None:
-        g = {lb: [] for lb in labs}
-        for u, v, c, w in case["arcs"]:
-            g[labs[u]].append((labs[v], c, w))
+        g = {_fresh(lb): [] for lb in labs}
+        for u, v, c, w in real_arcs:
+            g[labs[u]].append((_fresh(labs[v]), c, w))
         try:
-            events.append(_cost_event("min_cost_flow", min_cost_flow(g, labs[case["s"]], labs[case["t"]], case["demand"]), ids))
+            events.append(_cost_event("min_cost_flow", min_cost_flow(g, _fresh(labs[case["s"]]), _fresh(labs[case["t"]]), case["demand"]), ids, off))
         except Exception as ex:  # noqa: BLE001
             events.append({"e": "raise", "fn": "min_cost_flow", "what": type(ex).__name__})
         supplies = [0] * n
@@ -79,14 +108,14 @@ def run_mincost(case):
         supplies[case["t"]] -= case["demand"]
     if case["s"] != case["t"]:      # parallel arcs are part of C09's domain for network_simplex too
         try:
-            r = network_simplex(n, [tuple(a) for a in case["arcs"]], [float(x) for x in supplies] if case.get("float_supplies") else list(supplies))
-            events.append(_cost_event("network_simplex", r, {i: i for i in range(n)}))
+            r = network_simplex(n, list(real_arcs), [float(x) for x in supplies] if case.get("float_supplies") else list(supplies))
+            events.append(_cost_event("network_simplex", r, {i: i for i in range(n)}, off))
         except Exception as ex:  # noqa: BLE001
             events.append({"e": "raise", "fn": "network_simplex", "what": type(ex).__name__})
         for mi in case.get("ns_max_iters", (0, 1, 2, 4)):       # iteration limits: MAX_ITER / FEASIBLE are fine, a wrong verdict is not
             try:
-                r = network_simplex(n, [tuple(a) for a in case["arcs"]], list(supplies), max_iter=mi)
-                events.append(_cost_event("network_simplex", r, {i: i for i in range(n)}))
+                r = network_simplex(n, list(real_arcs), list(supplies), max_iter=mi)
+                events.append(_cost_event("network_simplex", r, {i: i for i in range(n)}, off))
             except Exception as ex:  # noqa: BLE001
                 events.append({"e": "raise", "fn": "network_simplex", "what": type(ex).__name__})
     return {"kind": "mincost", "n": n, "arcs": case["arcs"], "s": case["s"], "t": case["t"], "demand": case.get("demand", 0),
@@ -96,9 +125,13 @@ def run_mincost(case):
 def run_assign(case):
     from solvor.flow import solve_assignment
     M = case["matrix"]
+    K = case.get("shift", 0)           # every entry raised by K: each assignment of the min(r, c) rows shifts by the same constant
     try:
-        r = solve_assignment([list(map(float, row)) if case.get("floats") else list(row) for row in M])
-        c = float(r.objective)
+        r = solve_assignment([list(map(float, row)) if case.get("floats") else [x + K for x in row] for row in M])
+        obj = r.objective
+        if K and isinstance(obj, float) and obj == int(obj):
+            obj = int(obj)
+        c = float(obj - K * min(len(M), len(M[0]) if M else 0))
         ev = {"e": "ret", "fn": "solve_assignment", "status": r.status.name, "assignment": [int(x) for x in r.solution],
               "cost": int(round(c)), "exact": abs(c - round(c)) < 1e-9}
     except Exception as ex:  # noqa: BLE001
@@ -352,7 +385,7 @@ def gen_maxflow(rng, nmax=10):
                     arcs.append([u, v, rng.randint(1, 3), 0])           # parallel arc
     rng.shuffle(arcs)
     s, t = (0, n - 1) if layered or rng.random() < 0.6 else rng.sample(range(n), 2)
-    return {"n": n, "arcs": arcs, "s": s, "t": t, "labels": rng.choice(["int", "str", "tuple", "odd"]), "all_keys": rng.random() < 0.5}
+    return {"n": n, "arcs": arcs, "s": s, "t": t, "labels": rng.choice(["int", "str", "tuple", "odd", "big"]), "all_keys": rng.random() < 0.5}
 
 
 def unit_layered(rng):
@@ -397,7 +430,7 @@ def gen_mincost(rng, nmax=8, general=False):
             if par and rng.random() < 0.5:
                 arcs.append([u, v, rng.randint(1, 3), cost if rng.random() < 0.4 else rng.randint(0, 6) + pi[u] - pi[v]])
     rng.shuffle(arcs)
-    case = {"n": n, "arcs": arcs[:14], "s": 0, "t": n - 1, "labels": rng.choice(["int", "str", "odd"])}
+    case = {"n": n, "arcs": arcs[:14], "s": 0, "t": n - 1, "labels": rng.choice(["int", "str", "odd", "tuple", "big"])}
     if general:
         b = [0] * n
         for _ in range(rng.randint(1, 3)):
@@ -409,6 +442,29 @@ def gen_mincost(rng, nmax=8, general=False):
         case["float_supplies"] = rng.random() < 0.5
     else:
         case["demand"] = rng.randint(0, 6)
+    return case
+
+
+def gen_mincost_cheapfirst(rng, general=False):
+    """more arcs than nodes, the free (zero-cost) arcs listed first and the priced ones last, costs of very different sizes: any
+    penalty or bound derived from part of the arc list only is too small for the priced routes"""
+    n = rng.randint(2, 6)
+    pairs = [(u, v) for u in range(n) for v in range(n) if u != v]
+    free = [[*rng.choice(pairs), rng.randint(1, 4), 0] for _ in range(n + rng.randint(0, 2))]
+    priced = [[*rng.choice(pairs), rng.randint(1, 4), rng.choice([1, 3, 7, 9, 20, 50])] for _ in range(rng.randint(1, 12 - n))]
+    if rng.random() < 0.5:
+        priced.append([0, n - 1, 4, rng.choice([9, 30, 70])])          # a direct priced link, often the only way to meet the demand
+    case = {"n": n, "arcs": free + priced, "s": 0, "t": n - 1, "labels": rng.choice(["int", "str"]), "ns_max_iters": (2,)}
+    if general:
+        b = [0] * n
+        for _ in range(rng.randint(1, 2)):
+            a, c = rng.sample(range(n), 2)
+            k = rng.randint(1, 3)
+            b[a] += k
+            b[c] -= k
+        case["supplies"] = b
+    else:
+        case["demand"] = rng.randint(1, 4)
     return case
 
 
@@ -438,4 +494,40 @@ def gen_mincost_longroute(rng):
 
 def gen_assign(rng):
     r, c = rng.randint(1, 5), rng.randint(1, 5)
-    return {"matrix": [[rng.randint(-3, 9) for _ in range(c)] for _ in range(r)], "floats": rng.random() < 0.3}
+    case = {"matrix": [[rng.randint(-3, 9) for _ in range(c)] for _ in range(r)], "floats": rng.random() < 0.3}
+    if not case["floats"] and rng.random() < 0.25:
+        case["shift"] = rng.choice(BIG)
+    return case
+
+
+BIG = [2 ** 50, 2 ** 53, 10 ** 15, 10 ** 16, 2 ** 60 + 1, 10 ** 18]
+
+
+def gen_mincost_huge(rng, general=False):
+    """integer costs beyond 2^50 (float arithmetic is no longer exact there): a layered network in which every route has the same
+    number of arcs, with every cost raised by one huge constant - the trace keeps the small costs and the shifted objective"""
+    L = rng.randint(1, 3)
+    widths = [rng.randint(1, 3) if general else 1] + [rng.randint(1, 3) for _ in range(L - 1)] + [rng.randint(1, 3) if general else 1]
+    layers, n = [], 0
+    for w in widths:
+        layers.append(list(range(n, n + w)))
+        n += w
+    arcs = []
+    for a, b in zip(layers, layers[1:]):
+        for u in a:
+            for v in b:
+                for _ in range(rng.choice([0, 1, 1, 2, 3])):
+                    arcs.append([u, v, rng.randint(0, 3), rng.randint(0, 7)])
+    rng.shuffle(arcs)
+    case = {"n": n, "arcs": arcs[:14], "s": 0, "t": n - 1, "labels": rng.choice(["int", "str", "odd"]), "shift": rng.choice(BIG), "layers": L,
+            "ns_max_iters": (1, 3)}
+    if general:
+        b = [0] * n
+        for _ in range(rng.randint(1, 3)):
+            k = rng.randint(1, 2)
+            b[rng.choice(layers[0])] += k
+            b[rng.choice(layers[-1])] -= k
+        case["supplies"] = b
+    else:
+        case["demand"] = rng.randint(0, 4)
+    return case
